@@ -59,6 +59,7 @@ class Interp:
         self.call_model = call_model
         self.max_paths = max_paths
         self.imprecise = False
+        self.returns = []   # values of _0 observed at return blocks
 
     def _discr_of(self, val):
         if isinstance(val, Enum):
@@ -124,9 +125,18 @@ class Interp:
                         self.assign(env, t["dest"], res)
                     stack.append((t["to"], env))
             else:
+                if k == "return":
+                    self.returns.append(env.get(0, UNKNOWN))
                 for x in self.body.succ(bb):
                     stack.append((x, env))
         return reached
+
+    def return_value(self):
+        """the unique concrete return value if every explored path returned the same known value, else UNKNOWN"""
+        vals = {repr(v) for v in self.returns}
+        if len(vals) == 1 and self.returns and self.returns[0] is not UNKNOWN and not self.imprecise:
+            return self.returns[0]
+        return UNKNOWN
 
     def _mentions_args(self, op):
         import flow
@@ -289,6 +299,13 @@ class Interp:
             r = self.call_model(self, env, t, c, args)
             if r is not NotImplemented:
                 return r
+        # small pure local functions (e.g. FileType::is_cacheable): interpret the callee on the concrete arguments
+        tb = self.prog.bodies.get(c)
+        if tb is not None and len(tb.blocks) <= 12 and all(a is not UNKNOWN for a in args) and getattr(self, "_depth", 0) < 3:
+            sub = Interp(self.prog, tb, {i + 1: a for i, a in enumerate(args)})
+            sub._depth = getattr(self, "_depth", 0) + 1
+            sub.run()
+            return sub.return_value()
         if re.search(r"Deref>::deref$|Clone>::clone$|Borrow>::borrow$", c) and args:
             return args[0]
         return UNKNOWN
